@@ -31,13 +31,22 @@ CONSTANTS GenSizes,     \* [named_derive |-> {..}, named_map |-> {..}, tuple_der
 AttrDevs == <<"IntBeyond2p53", "NullTruncatesArray", "DocAttrPanics">>
 SizesNone     == [named_derive |-> {}, named_map |-> {}, tuple_derive |-> {}, enum_derive |-> {}]
 SizesInts     == [named_derive |-> {4}, named_map |-> {4}, tuple_derive |-> {4}, enum_derive |-> {}]
-SizesQuick    == [named_derive |-> {2, 3, 4}, named_map |-> {2, 4}, tuple_derive |-> {1, 3}, enum_derive |-> {1, 3, 4}]
+SizesQuick    == [named_derive |-> {3, 4}, named_map |-> {3}, tuple_derive |-> {2, 3}, enum_derive |-> {3}]
 SizesThorough == [named_derive |-> {1, 2, 3, 4, 6}, named_map |-> {1, 2, 3, 5}, tuple_derive |-> {1, 2, 3, 4, 6}, enum_derive |-> {1, 2, 3, 4, 5, 6}]
 
 KV(d) == d.kind \o "_" \o d.via
 Take(s, n) == SubSeq(s, 1, IF Len(s) < n THEN Len(s) ELSE n)
 \* what a single deviation would make the implementation show instead (only when it differs)
 Alt(e, o) == IF o = e THEN [same |-> TRUE] ELSE [same |-> FALSE, o |-> o]
+\* Which deviation can change what a typed-mapping vector shows at all (an optimisation of the generation only: for the
+\* others the alternative is not computed and the vector can then never be attributed to them, which errs on the
+\* side of reporting): integer rounding needs an integer kind wider than 53 bits somewhere in the program, the derive
+\* panic needs a program it rejects, and the array muncher defect is not reachable from any expansion of a mapping.
+WideInt(P) == \E i \in 1..Len(P) : \E h \in 1..Len(P[i].fields) :
+                 P[i].fields[h].ty.base = "Int" /\ IntBits(P[i].fields[h].ty.a) > 53
+CanAffect(dev, P) == CASE dev = "IntBeyond2p53" -> WideInt(P)
+                       [] dev = "DocAttrPanics" -> ~ProgCompiles(P, {dev})
+                       [] OTHER -> FALSE
 Emit(d) ==
   LET P == Prog(d)
       vs == Take(DeclVals(d, P), NVals) IN
@@ -47,7 +56,9 @@ Emit(d) ==
                             [v |-> vs[q],
                              doc |-> Canon(ShapeD(vs[q], d, P)),
                              exp |-> e,
-                             alt |-> [a \in 1..Len(AttrDevs) |-> Alt(e, Observe(vs[q], d, P, {AttrDevs[a]}))]]]]))
+                             alt |-> [a \in 1..Len(AttrDevs) |->
+                                        IF CanAffect(AttrDevs[a], P) THEN Alt(e, Observe(vs[q], d, P, {AttrDevs[a]}))
+                                        ELSE [same |-> TRUE]]]]]))
 InFamily(d) == /\ Len(d.fields) \in GenSizes[KV(d)]
                /\ d.kind = "enum" \/ (first - 1) % Len(d.fields) = 0
 GenDeclInv == (HasDecl /\ InFamily(cur)) => Emit(cur)
